@@ -142,7 +142,8 @@ let fresh () = { op = []; perm = []; qperm = []; fuse = None; result = ""; state
 
 let verbose = ref false
 let aspects = ref "RSHAKD"   (* Result State Hashes Allocs/frees Kept-ledger(drops) Dumps *)
-let asp c = String.contains !aspects c
+(* the hook state is always compared: the oracle counters are inferred from it *)
+let asp c = c = 'S' || String.contains !aspects c
 let total_hist = ref 0 and total_ops = ref 0 and total_diff = ref 0 and total_oracle_retries = ref 0
 let opkinds : (string, int) Hashtbl.t = Hashtbl.create 64
 
